@@ -101,6 +101,13 @@ impl Actor for LateStarter {
 
 /// a subscriber that is still starting when the first publications arrive must receive them (and the later ones) once it runs
 fn starting(log: &Arc<Mutex<Vec<String>>>) {
+    starting_with(log, &[2, 4], "starting");
+    // the same with a publication the subscriber's converter filters out (9) arriving while it is still starting
+    let log2 = Arc::new(Mutex::new(Vec::new()));
+    starting_with(&log2, &[9, 4], "starting_filtered");
+}
+
+fn starting_with(log: &Arc<Mutex<Vec<String>>>, early: &[u64], label: &str) {
     let rt = tokio::runtime::Builder::new_current_thread().enable_time().start_paused(true).build().unwrap();
     rt.block_on(async {
         let port = Arc::new(OutputPort::<u64>::default());
@@ -108,8 +115,9 @@ fn starting(log: &Arc<Mutex<Vec<String>>>) {
         let actor = LateStarter { log: log.clone(), port: port.clone(), gate: Mutex::new(Some(rx)) };
         let spawn = tokio::spawn(async move { Actor::spawn(None, actor, ()).await });
         settle().await;
-        port.send(2);
-        port.send(4);
+        for v in early {
+            port.send(*v);
+        }
         settle().await;
         let _ = tx.send(());
         let _ = spawn.await;
@@ -119,5 +127,5 @@ fn starting(log: &Arc<Mutex<Vec<String>>>) {
         port.send(8);
         settle().await;
     });
-    println!("starting={}", log.lock().unwrap().join(","));
+    println!("{}={}", label, log.lock().unwrap().join(","));
 }
